@@ -7,7 +7,7 @@
 from ..ir import Program, AnchorError, callee_name
 from ..ranges import Analyzer, mk, seq, top, top_ty, report_sites
 from ..serde_grammar import path_sequences, show_seq, SER, DES
-from . import c04, c17, c06
+from . import c04, c17, c06, c15
 
 PROOF_TYPES_PREFIX = ("winter_air::proof::", "winter_air::air::trace_info::TraceInfo", "winter_air::options::", "winter_fri::proof::",
                       "winter_air::air::context::", "winter_crypto::")
@@ -124,6 +124,10 @@ def run(ck):
     hr(ck, prog)
     s1(ck, prog)
     c17.units(ck, prog)
+    ck.rule("X", "the remainder commitment is exempt from the degree-divisibility requirement in FriVerifier::new (every well-formed FRI schedule verifies)")
+    ck.rule("A", "prover and verifier agree on FRI layer count, position folding and per-layer domain reduction")
+    c15.remainder_exemption(ck, prog)
+    c15.agreement(ck, prog)
     # transcript agreement: both sides are checked against the one documented event order (rules E1.*/E3.* of C04)
     c04.run(ck)
     ck.explanation = (
@@ -135,6 +139,8 @@ def run(ck):
         "(S1) every type reachable from Proof's reader has identical writer and reader token grammars, so parsing serialized proofs "
         "consumes them exactly; (T = rules E1.*/E3.* shared with C04) prover and verifier absorb and draw in the same documented order "
         "with the absorbed value being the value carried in the proof, so both derive the same challenges; (U) the prover's large-"
-        "polynomial boundary constraints are expressed in constraint-evaluation-domain units. Not decided: that valid traces satisfy "
+        "polynomial boundary constraints are expressed in constraint-evaluation-domain units; (X, A shared with C15) the FRI verifier "
+        "exempts the never-folded remainder from the divisibility requirement and both sides derive the same layer count, folded "
+        "positions and domain reduction, so every well-formed schedule is accepted. Not decided: that valid traces satisfy "
         "the prover's degree assertions, that evaluations agree numerically, or anything about specific AIRs."
     )
